@@ -6,17 +6,17 @@ level    : level claimed when every obligation is discharged; drops to 'other' o
 """
 
 PROPS = {
-    'C01': dict(families=[], bounded='pvf.bounded.c01', level='other'),
+    'C01': dict(families=['printers'], bounded='pvf.bounded.c01', level='other'),
     'C02': dict(families=['strings'], bounded='pvf.bounded.c02', level='other'),
     'C03': dict(families=['context'], bounded='pvf.bounded.c03', level='other'),
     'C04': dict(families=['layout', 'normalize', 'render'], bounded='pvf.bounded.c04', level='proof'),
     'C05': dict(families=['layout', 'normalize'], bounded='pvf.bounded.c05', level='proof'),
     'C06': dict(families=['layout', 'normalize'], bounded='pvf.bounded.c06', level='other'),
     'C07': dict(families=[], bounded='pvf.bounded.c07', level='other'),
-    'C08': dict(families=[], bounded='pvf.bounded.c08', level='other'),
+    'C08': dict(families=['printers'], bounded='pvf.bounded.c08', level='other'),
     'C09': dict(families=[], bounded='pvf.bounded.c09', level='other'),
-    'C10': dict(families=['context'], bounded='pvf.bounded.c10', level='other'),
-    'C11': dict(families=['context'], bounded='pvf.bounded.c11', level='other'),
+    'C10': dict(families=['context', 'printers'], bounded='pvf.bounded.c10', level='other'),
+    'C11': dict(families=['context', 'printers'], bounded='pvf.bounded.c11', level='other'),
     'C12': dict(families=['layout', 'normalize', 'strings'], bounded='pvf.bounded.c12', level='other'),
     'C13': dict(families=['runpretty', 'context'], bounded='pvf.bounded.c13', level='other'),
     'C14': dict(families=['runpretty'], bounded='pvf.bounded.c14', level='other'),
